@@ -16,9 +16,10 @@ import (
 )
 
 type Chan[T any] struct {
-	buf    []T
-	cap    int
-	closed bool
+	buf     []T
+	cap     int
+	closed  bool
+	waiting int // receivers parked on an unbuffered channel (rendezvous)
 }
 
 func Make[T any](n int) *Chan[T] { return &Chan[T]{cap: n} }
@@ -27,7 +28,16 @@ func (c *Chan[T]) Len() int     { return len(c.buf) }
 func (c *Chan[T]) Cap() int     { return c.cap }
 func (c *Chan[T]) Closed() bool { return c.closed }
 
-func (c *Chan[T]) sendReady() bool { return c == nil || c.closed || len(c.buf) < c.cap }
+// an unbuffered channel (cap 0) accepts a send only while a receiver is parked on it
+func (c *Chan[T]) sendReady() bool {
+	if c.closed {
+		return true
+	}
+	if c.cap == 0 {
+		return len(c.buf) < c.waiting
+	}
+	return len(c.buf) < c.cap
+}
 func (c *Chan[T]) recvReady() bool { return c != nil && (c.closed || len(c.buf) > 0) }
 
 func (c *Chan[T]) doSend(v T) {
@@ -66,6 +76,10 @@ func Recv2[T any](c *Chan[T]) (T, bool) {
 	if c == nil {
 		vsched.WaitUntil(func() bool { return false })
 	}
+	if c.cap == 0 {
+		c.waiting++
+		defer func() { c.waiting-- }()
+	}
 	vsched.WaitUntil(c.recvReady)
 	return c.doRecv()
 }
@@ -84,6 +98,7 @@ func Close[T any](c *Chan[T]) {
 type selCase interface {
 	ready() bool
 	fire()
+	park(d int)
 }
 
 type Sel struct {
@@ -98,6 +113,7 @@ type SCase[T any] struct {
 	v T
 }
 
+func (s *SCase[T]) park(int)    {}
 func (s *SCase[T]) ready() bool { return s.c != nil && s.c.sendReady() }
 func (s *SCase[T]) fire()       { s.c.doSend(s.v) }
 
@@ -107,6 +123,11 @@ type RCase[T any] struct {
 	ok bool
 }
 
+func (r *RCase[T]) park(d int) {
+	if r.c != nil && r.c.cap == 0 {
+		r.c.waiting += d
+	}
+}
 func (r *RCase[T]) ready() bool { return r.c.recvReady() }
 func (r *RCase[T]) fire()       { r.v, r.ok = r.c.doRecv() }
 func (r *RCase[T]) Val() T      { return r.v }
@@ -148,7 +169,13 @@ func (s *Sel) Wait() int {
 		s.cases[r[k]].fire()
 		return r[k]
 	}
+	for _, c := range s.cases {
+		c.park(1)
+	}
 	vsched.WaitUntilQuiet(func() bool { return len(s.readyList()) > 0 })
+	for _, c := range s.cases {
+		c.park(-1)
+	}
 	r := s.readyList()
 	k := vsched.Choose(len(r))
 	vsched.LogChoice(k)
